@@ -44,6 +44,20 @@ FileOK(t) ==
 OrderedLevel(T, nums) ==
   \A i \in 1 .. (Len(nums) - 1) : KMax(T[nums[i]]) < KMin(T[nums[i+1]])
 
+\* version.go versionStaging (commit + finish): the version installed by an edit is exactly the previous version
+\* minus the tables the edit deletes plus the tables it adds, level by level (the manifest records the same edit,
+\* so this is also what a later Open rebuilds).  Checked whenever the previous version of this session is known.
+LevelSet(levels, lx) == IF lx + 1 <= Len(levels) THEN SeqSet(levels[lx + 1]) ELSE {}
+EditApplied(e) ==
+  IF e.hasrec = 1 /\ e.old > 0 /\ e.old \in Dom2(vlevels)     \* (old = 0: the empty version a session starts from; recovery installs the manifest's whole content on it)
+  THEN LET oldL == vlevels[e.old]
+           maxl == IF Len(oldL) > Len(e.levels) THEN Len(oldL) ELSE Len(e.levels)
+           addS(lx) == {e.add[i][2] : i \in {j \in 1 .. Len(e.add) : e.add[j][1] = lx}}
+           delS(lx) == {e.del[i][2] : i \in {j \in 1 .. Len(e.del) : e.del[j][1] = lx}}
+       IN \A lx \in 0 .. (maxl - 1) :
+            LevelSet(e.levels, lx) = (LevelSet(oldL, lx) \ delS(lx)) \cup addS(lx)
+  ELSE TRUE
+
 TInstall ==
   /\ Is("install")
   /\ \A i \in 1 .. Len(E.tabs) : FileOK(E.tabs[i])
@@ -59,6 +73,7 @@ TInstall ==
         /\ DisjointOf(L, Lv)
         /\ \A lx \in Lv : lx > 0 => OrderedLevel(T, E.levels[lx + 1])
         /\ RecencyOf(L, Lv)
+        /\ EditApplied(E)
         /\ tabs' = T
         /\ vfiles' = Ext2(vfiles, E.new, nums)
         /\ vlevels' = Ext2(vlevels, E.new, E.levels)
